@@ -7,7 +7,7 @@ from typing import Dict, List, Optional, Set, Tuple
 
 from ..cfg import CFG
 from ..model import AnchorError, Program, dotted, kw, last_attr, norm, parent, walk_no_nested
-from ..report import Check
+from ..report import Check, guard
 from .common import calls_in, guards_of, local_assignments, need_locals, returns_of
 
 
@@ -595,9 +595,9 @@ def r16_j(prog: Program, chk: Check) -> None:
 
 
 def run(prog: Program, chk: Check) -> None:
-    r16_c(prog, chk)
-    r16_e(prog, chk)
-    r16_f(prog, chk)
-    r16_hi(prog, chk)
-    r16_i(prog, chk)
-    r16_j(prog, chk)
+    guard(chk, r16_c, prog, chk)
+    guard(chk, r16_e, prog, chk)
+    guard(chk, r16_f, prog, chk)
+    guard(chk, r16_hi, prog, chk)
+    guard(chk, r16_i, prog, chk)
+    guard(chk, r16_j, prog, chk)
